@@ -83,7 +83,7 @@ var extremes = []string{"0", "1", "-1", "+1", "00", "255", "256", "127", "128", 
 var quirkLines = []string{
 	"o=- 0 0 IN IPV4 10.0.0.1", "o=- 0 0 IP IP4 10.0.0.1", "o=- 0 0 IN", "o=- 0 0 IN ", "o=-0 0 IN IP4 1.1.1.1", "o=- 1.5 2.5 IN IP4 h", "o=a b c d 0xAF 3 IN IP6 ::1", "o=- abcdef 1 IN IP4 x", "o=0 IN IP4 x",
 	"o=IN IP4 x", "o= IN IP4 ", "o=- 18446744073709551616 1 IN IP4 x", "o=- -5 -6 IN IP4 x",
-	"c=IN", "c=IN IP4", "c=IN 192.168.4.232", "c=IN fe80::1234", "c=IN IPV4 1.2.3.4", "c=IN c=IN IP4 1.2.3.4", "c=in ip4 1.2.3.4", "c=IN IP6 ::1/64", "c=SM x", "c=XX IP4 1.1.1.1", "c=", "c=IN nonsense",
+	"c=IN", "c=IN IP4", "c=IN 192.168.4.232", "c=IN fe80::1234", "c=IN IPV4 1.2.3.4", "c=IN c=IN IP4 1.2.3.4", "c=in ip4 1.2.3.4", "c=IN IP6 ::1/64", "c=SM x", "c=XX IP4 1.1.1.1", "c=", "c=IN nonsense", "c=IN 256.1.1.1", "c=IN 01.2.3.4", "c=IN 1.2.3", "c=IN 1.2.3.4.5", "c=IN 1.2.3.4.", "c=IN .1.2.3", "c=IN 1..2.3", "c=IN 1.2:3.4", "c=IN %1.2", "c=IN 0.0.0.0", "c=IN 255.255.255.255", "c=IN 1.2.3.a", "c=in 10.0.0.1", "c=IN 1000.1.1.1", "c=IN 1.2.3.4 x",
 	"t=now-", "t=0", "t=1 2 3", "t=a b", "t=0 18446744073709551616", "t=", "r=7d 1h 0 25h", "r=1", "r=x y", "r=604800 3600 0 90000", "z=2882844526 -1h 2898848070 0", "z=1", "z=a b", "z=1 1x",
 	"b=AS:500", "b=X-YZ:128", "b=TIAS:1", "b=AS", "b=AS:x", "b=FOO:1", "b=AS:1:2",
 	"i=info", "u=http://x/y", "u=:bad:url", "u=%zz", "e=a@b", "p=+1 617", "k=prompt", "k=", "x=1", "v=1", "v=0", "v=", "s=", "s= ", "s=two", "m=video 0 RTP/AVP 96", "m=audio 0 RTP/AVP",
